@@ -3,7 +3,7 @@
 (* property of its canonical form is.  Props is a constant COMPUTED FROM THE            *)
 (* IMPLEMENTATION: for every shape the driver calls the real canonical_form and          *)
 (* writes the projected pair (orig, parts) to the file named by PROPS_FILE.              *)
-EXTENDS HplMonitor, HplProps, Json, IOUtils
+EXTENDS HplMonitor, HplProps, HplScoping, Json, IOUtils
 
 Props == JsonDeserialize(IOEnv.PROPS_FILE)
 
@@ -11,6 +11,17 @@ Props == JsonDeserialize(IOEnv.PROPS_FILE)
 EquivImpl == \A k \in 1..Len(Props) : Sat(Props[k].orig, tr) = SatAll(Props[k].parts, tr)
 \* so does the specification's own CanonicalForm
 EquivSpec == \A k \in 1..Len(Props) : Sat(Props[k].orig, tr) = SatAll(CanonicalForm(Props[k].orig), tr)
+\* C02 <-> L3: a property that the binding-order rule accepts is never evaluated with an unbound alias - unless an alias that
+\* only SOME alternatives of a disjunction bind is referred to later (the shape of known finding F16, which the rule lets through)
+PartialAlias(p) ==
+  \E e \in {x \in Nodes(p) : x.cls = "HplEventDisjunction"} :
+     LET ss == SimpleEvents(e) IN
+     \E i \in 1..Len(ss) : \E j \in 1..Len(ss) : ss[i].alias[1] = "some" /\ ss[j].alias # ss[i].alias
+BindingSufficient == \A k \in 1..Len(Props) :
+   (Accept(Props[k].orig) /\ ~PartialAlias(Props[k].orig)) => ~UnboundEval(Props[k].orig, tr)
+\* ... and the rule is not stronger than needed on these shapes: a property it rejects for an unbound / late reference IS
+\* evaluated with an unbound alias on some trace (checked as a must-fail instance)
+RejectedNeverMiss == \A k \in 1..Len(Props) : ~RefsBound(Props[k].orig) => ~UnboundEval(Props[k].orig, tr)
 \* non-vacuity probes: some trace satisfies / violates each original property
 NeverSat(k) == ~Sat(Props[k].orig, tr)
 NeverViolated(k) == Sat(Props[k].orig, tr)
